@@ -23,7 +23,7 @@ import ast
 from ..core import (AnalysisError, call_name, const_str, dotted, find_calls,
                     is_self_attr, kwarg, last_attr, names_in, short, txt,
                     walk)
-from ..normalize import expand_locals, inline_helpers
+from ..normalize import canon, expand_locals, inline_helpers
 
 ASSUMPTIONS = [
     "NOT decided: value equality of cached and uncached results for "
@@ -44,8 +44,8 @@ CORE = "dclab/rtdc_dataset/core.py"
 
 
 def r171(ctx, repo):
-    call = inline_helpers(repo, CA, repo.func(CA, "Cache.__call__"),
-                          keep=("_update_hash",))
+    call = canon(repo, CA, repo.func(CA, "Cache.__call__"),
+                 keep=("_update_hash",), unroll=False)
     va = call.args.vararg.arg if call.args.vararg else None
     kw = call.args.kwarg.arg if call.args.kwarg else None
     if not va or not kw:
@@ -555,7 +555,7 @@ def r175(ctx, repo):
 
 
 def r176(ctx, repo):
-    init = repo.func(CO, "LazyContourList.__init__")
+    init = canon(repo, CO, repo.func(CO, "LazyContourList.__init__"))
     dq = {}
     for n in walk(init):
         if isinstance(n, ast.Assign) and isinstance(n.value, ast.Call) \
